@@ -59,6 +59,12 @@ class Runner:
     self.params = params if params is not None else {
         f"p{i}": jnp.asarray(rs.standard_normal(s).astype(dtype)) for i, s in enumerate(self.shapes)}
     with contextlib.redirect_stdout(io.StringIO()):
+      if o.get("warm_shapes"):
+        # the same transformation object first serves ANOTHER tree of the same structure (other leaf shapes):
+        # nothing about one tree may stick to the object
+        sib = {f"p{i}": jnp.ones(tuple(s_), dtype) for i, s_ in enumerate(o["warm_shapes"])}
+        st0 = self.tx.init(sib)
+        self.tx.update(jax.tree.map(lambda x: 0.5 * x, sib), st0, sib)
       self.state = self.tx.init(self.params)
       self._upd = jax.jit(self.tx.update)
 
